@@ -253,6 +253,8 @@ def c_rop(o):
 
 def j_rop(o):
     t = o[0]
+    if t == "read":
+        return ["read", jtext(o[1])]
     if t == "set":
         return ["set", jtext(o[1]), jtext(o[2])]
     if t == "del":
@@ -264,6 +266,8 @@ def j_rop(o):
 
 def unj_rop(j):
     t = j[0]
+    if t == "read":
+        return ("read", untext(j[1]))
     if t == "set":
         return ("set", untext(j[1]), untext(j[2]))
     if t == "del":
@@ -360,37 +364,63 @@ def new_request(header):
     return Request(env)
 
 
-def read_jar(req):
-    """dict(req.cookies) as an ordered list of pairs, or Err."""
+def read_jar(req, view=None):
+    """dict(req.cookies) as an ordered list of pairs, or Err; through a held RequestCookies view when given."""
     try:
-        ck = req.cookies
+        ck = req.cookies if view is None else view
         return [[k, ck[k]] for k in ck.keys()]
     except Exception as e:  # noqa
         return Err(type(e).__name__)
 
 
-def apply_rop(req, o):
+def read_all(ck, name):
+    """Every read-only access of a RequestCookies view, for one name."""
+    return [catch(ck.get, name), catch(ck.get, name, "dflt"), catch(ck.__contains__, name), catch(len, ck),
+            catch(lambda: [list(kv) for kv in ck.items()]), catch(lambda: list(ck.keys())), catch(lambda: list(ck.values())),
+            catch(lambda: list(iter(ck))), catch(ck.__getitem__, name)]
+
+
+def read_expected(jar, name):
+    """What read_all must give when dict(cookies) is `jar` (ordered pairs)."""
+    d = {k: v for k, v in jar}
+    return [d.get(name), d.get(name, "dflt"), name in d, len(d), [list(kv) for kv in jar], [k for k, _ in jar],
+            [v for _, v in jar], [k for k, _ in jar], d[name] if name in d else Err("KeyError")]
+
+
+def apply_rop(req, o, view=None):
     t = o[0]
+    ck = req.cookies if view is None else view
     if t == "set":
-        return catch(req.cookies.__setitem__, o[1], o[2])
+        return catch(ck.__setitem__, o[1], o[2])
     if t == "del":
-        return catch(req.cookies.__delitem__, o[1])
+        return catch(ck.__delitem__, o[1])
     if t == "clear":
-        return catch(req.cookies.clear)
+        return catch(ck.clear)
+    if t == "read":
+        return read_all(ck, o[1])
     if t == "assign":
+        arg = dict(o[1])
+
         def f():
-            req.cookies = dict(o[1])
-        return catch(f)
+            req.cookies = arg
+        r = catch(f)
+        if arg != dict(o[1]) or list(arg) != [k for k, _ in o[1]]:
+            return Err("caller-dict-mutated")
+        return r
     raise ValueError(o)
 
 
-def run_request_impl(header, ops):
-    """What the model's run_request_u computes: [[header, dict]] + per step [result, header, dict]."""
+def run_request_impl(header, ops, held=False):
+    """What the model's run_request_u computes: [[header, dict]] + per mutating step [result, header, dict].
+    held: ONE RequestCookies view serves the whole history.  Read-only steps are executed but give no row: the
+    model has no counterpart (its reads are functions of the header), so they must be invisible."""
     req = new_request(header)
-    out = [[req.environ.get("HTTP_COOKIE"), read_jar(req)]]
+    view = req.cookies if held else None
+    out = [[req.environ.get("HTTP_COOKIE"), read_jar(req, view)]]
     for o in ops:
-        r = apply_rop(req, o)
-        out.append([r, req.environ.get("HTTP_COOKIE"), read_jar(req)])
+        r = apply_rop(req, o, view)
+        if o[0] != "read":
+            out.append([r, req.environ.get("HTTP_COOKIE"), read_jar(req, view)])
     return out
 
 
@@ -537,7 +567,9 @@ GOOD_NAMES = NAMES + ["c", "a.b", "a-b", "!#%&'*+-.^_`|~", "aB", "Ab", "abc", "0
 
 
 def gen_rop(rng, wide=True):
-    t = rng.choice(["set", "set", "set", "del", "del", "clear", "assign"] if wide else ["set", "set", "del", "del"])
+    t = rng.choice(["set", "set", "set", "del", "del", "clear", "assign", "read", "read"] if wide else ["set", "set", "del", "del"])
+    if t == "read":
+        return ("read", rng.choice(NAMES + ["c", "path", "$a"]))
     if rng.random() < 0.12 and wide:
         name = rng.choice(BAD_NAMES + [None])
     else:
@@ -568,7 +600,7 @@ def gen_request_case(rng, maxlen, cls=None):
     if rng.random() < 0.08:
         header, intent = (None, []) if rng.random() < 0.5 else ("", [])
     ops = [gen_rop(rng) for _ in range(rng.randrange(1, maxlen + 1))]
-    return {"kind": "request", "class": cls, "header": header, "intent": intent, "ops": ops}
+    return {"kind": "request", "class": cls, "header": header, "intent": intent, "ops": ops, "held": rng.random() < 0.5}
 
 
 ATTR_TEXT = [None, None, "/", "/p", "/p q", "/a;b", "x; secure", "d.example", ".e.com", "c\"o,m", "é", "", "a=b; HttpOnly", "\\"]
@@ -695,7 +727,8 @@ def oracle_request(case):
     with warnings.catch_warnings():
         warnings.simplefilter("ignore")
         req = new_request(header)
-        init = read_jar(req)
+        view = req.cookies if case.get("held") else None      # ONE RequestCookies view for the whole history
+        init = read_jar(req, view)
         ref = None
         semantic = cls in ("W", "T")
         if semantic:
@@ -709,13 +742,29 @@ def oracle_request(case):
         for i, op in enumerate(ops):
             before = req.environ.get("HTTP_COOKIE")
             before_pairs = raw_pairs(before)
-            before_jar = read_jar(req)
-            r = apply_rop(req, op)
+            before_jar = read_jar(req, view)
+            # a brand-new Request over the same header must answer this operation exactly like the long-lived one
+            twin = new_request(before)
+            tr = apply_rop(twin, op)
+            r = apply_rop(req, op, view)
             after = req.environ.get("HTTP_COOKIE")
-            jar = read_jar(req)
+            jar = read_jar(req, view)
             where = "step %d %r on %r (header %r -> %r): " % (i, op, header, before, after)
             key = classify_request(op, before)
             t = op[0]
+            if r != tr or after != twin.environ.get("HTTP_COOKIE"):
+                return ("request-jar:long-lived-object-differs-from-fresh",
+                        where + "this Request/RequestCookies gave %r and header %r, a fresh Request over the same header gives "
+                        "%r and %r" % (r, after, tr, twin.environ.get("HTTP_COOKIE")))
+            if r == Err("caller-dict-mutated"):
+                return ("request-jar:caller-argument-mutated", where + "the dict assigned to request.cookies was modified")
+            if t == "read":
+                if after != before or jar != before_jar:
+                    return ("request-jar:read-changes-state", where + "a read-only access changed the jar")
+                if not isinstance(before_jar, Err) and r != read_expected(before_jar, op[1]):
+                    return ("request-jar:read-views-disagree", where + "get/in/len/items/keys/values/iter/[] give %r, "
+                            "dict(cookies) is %r" % (r, before_jar))
+                continue
             # ---- what must happen
             rejected = False
             if t in ("set", "del"):
@@ -783,6 +832,8 @@ def oracle_request(case):
                     # outside the tokenisable class only coherence is asked: the reference follows the implementation
                     ref = {k: v for k, v in jar} if not isinstance(jar, Err) else None
             f1, f2 = fresh_views(req)
+            if view is not None and read_jar(req) != jar:
+                return ("request-jar:fresh-request-disagrees", where + "a new req.cookies view reads %r, the held one %r" % (read_jar(req), jar))
             if f1 != jar or f2 != jar:
                 return ("request-jar:fresh-request-disagrees", where + "a fresh Request reads %r / %r, this one %r" % (f1, f2, jar))
             if isinstance(jar, Err) and semantic:
@@ -869,9 +920,16 @@ def oracle_response(case):
         for i, op in enumerate(ops):
             t = op[0]
             before = [split_hl(hl_obs(r))[0] for r in rs]
+            # brand-new Responses with the same header lists must answer this operation like the long-lived ones
+            twins = new_responses([hl_obs(x) for x in rs])
+            tr = apply_xop(twins, op)
             r = apply_xop(rs, op)
             now = [split_hl(hl_obs(x)) for x in rs]
             where = "step %d %r: Set-Cookie %r -> %r: " % (i, op, before, [n[0] for n in now])
+            if r != tr or [hl_obs(x) for x in rs] != [hl_obs(x) for x in twins]:
+                return ("response:long-lived-object-differs-from-fresh",
+                        where + "these Responses gave %r and %r, fresh Responses with the same header lists give %r and %r"
+                        % (r, [hl_obs(x) for x in rs], tr, [hl_obs(x) for x in twins]))
             touches_others = t == "unset" or (t == "set" and op[3])
             # unset_cookie (also reached through overwrite=True) is the one place that rewrites existing headers
             key = "unset-cookie:set-cookie-headers-reserialised" if touches_others else "response:set-cookie-list-model"
@@ -942,7 +1000,109 @@ def oracle_response(case):
     return None
 
 
+APP_HEADERS = [[], [["Content-Type", "text/plain"]], [["Content-Type", "text/plain"], ["Set-Cookie", "own=1; Path=/"]],
+               [["set-cookie", "a=app"], ["X-App", "1"]], [["Set-Cookie", "b=1"], ["Set-Cookie", "b=2; Path=/x"]]]
+
+
+def gen_app_case(rng, empty_ok=True):
+    """merge_cookies onto a plain WSGI application: operations on the responses, then the merge, then the wrapped and
+    the bare application called again and again with further operations in between."""
+    c = gen_response_case(rng, 4, True, empty_ok)
+    calls = []
+    for _ in range(rng.randrange(2, 7)):
+        x = rng.random()
+        calls.append(("w",) if x < 0.55 else ("b",) if x < 0.8 else ("op", gen_xop(rng, True, empty_ok)))
+    return {"kind": "app", "init": c["init"], "pre": c["ops"], "app_headers": rng.choice(APP_HEADERS),
+            "reuse": rng.random() < 0.6, "calls": calls}
+
+
+def run_app_impl(case):
+    """What run_merge_app_u computes, on the real code: response 0's header list at merge time, then per call
+    [what start_response received, the application's own list] (or [result, header list] for an operation), then the
+    application's own list.  Also the rendered dates (model input) and whether merge_cookies returned the app itself."""
+    own = [tuple(h) for h in case["app_headers"]]
+    reuse = case["reuse"]
+
+    def app(environ, start_response):
+        start_response("200 OK", own if reuse else list(own))
+        return [b"body"]
+    out, dates_pre, dates_calls = [], [], []
+    with FrozenClock():
+        rs = new_responses(case["init"])
+        for o in case["pre"]:
+            r = apply_xop(rs, o)
+            date = ""
+            if o[0] == "set" and r is None:
+                m = re.search(r"expires=([^;]*)", rs[o[1]].headerlist[-1][1])
+                date = m.group(1) if m else ""
+            dates_pre.append(date)
+        out.append(hl_obs(rs[0]))
+        wrapped = catch(rs[0].merge_cookies, app)
+        if isinstance(wrapped, Err):
+            return [wrapped], dates_pre, dates_calls, False
+
+        def call(a):
+            seen = []
+            body = catch(a, {"REQUEST_METHOD": "GET"}, lambda status, headers, exc_info=None: seen.append([list(h) for h in headers]))
+            if isinstance(body, Err):
+                return body
+            if list(body) != [b"body"] or len(seen) != 1:
+                return Err("application-not-called-through")
+            return seen[0]
+        for c in case["calls"]:
+            date = ""
+            if c[0] == "w":
+                out.append([call(wrapped), [list(h) for h in own]])
+            elif c[0] == "b":
+                out.append([call(app), [list(h) for h in own]])
+            else:
+                o = c[1]
+                r = apply_xop(rs, o)
+                if o[0] == "set" and r is None:
+                    m = re.search(r"expires=([^;]*)", rs[o[1]].headerlist[-1][1])
+                    date = m.group(1) if m else ""
+                out.append([r, hl_obs(rs[0])])
+            dates_calls.append(date)
+        out.append([list(h) for h in own])
+    return out, dates_pre, dates_calls, wrapped is app
+
+
+def oracle_app(case):
+    """Every answer of the wrapped application = the application's own headers followed by the Set-Cookie headers the
+    response carried when merge_cookies was called, once; the bare application and its own list object are unchanged."""
+    out, _, _, same = run_app_impl(case)
+    if isinstance(out[0], Err) or len(out) < 2:
+        return ("merge-cookies-app:answer-differs", "merge_cookies(app) raised %r" % (out[-1],))
+    own = [list(h) for h in case["app_headers"]]
+    merged = [h for h in out[0] if h[0].lower() == "set-cookie"]
+    if not merged and not same:
+        return ("merge-cookies-app:answer-differs", "nothing to merge, yet merge_cookies did not return the application itself")
+    for i, (c, row) in enumerate(zip(case["calls"], out[1:-1])):
+        where = "call %d %r after merge_cookies(app) with Set-Cookie %r, app headers %r (%s list): " % (
+            i, c, merged, own, "one reused" if case["reuse"] else "a fresh")
+        if c[0] == "op":
+            continue
+        if row[1] != own:
+            return ("merge-cookies-app:application-header-list-mutated", where + "the application's own header list is now %r" % (row[1],))
+        want = own + merged if c[0] == "w" else own
+        if row[0] != want:
+            return ("merge-cookies-app:answer-differs", where + "start_response received %r, expected %r" % (row[0], want))
+    if out[-1] != own:
+        return ("merge-cookies-app:application-header-list-mutated", "the application's own header list ended as %r, it was %r" % (out[-1], own))
+    return None
+
+
+def c_acall(c, date=""):
+    if c[0] == "w":
+        return "ACallWrapped"
+    if c[0] == "b":
+        return "ACallBare"
+    return "(AOp %s)" % c_xop(c[1], date)
+
+
 def oracle(case):
+    if case.get("kind") == "app":
+        return oracle_app(case)
     if case.get("kind") == "request":
         return oracle_request(case)
     if case.get("kind") == "response":
@@ -952,6 +1112,10 @@ def oracle(case):
 
 def to_json(case):
     c = dict(case)
+    if c["kind"] == "app":
+        c["pre"] = [j_xop(o) for o in c["pre"]]
+        c["calls"] = [[x[0]] if x[0] != "op" else ["op", j_xop(x[1])] for x in c["calls"]]
+        return c
     if c["kind"] == "request":
         c["ops"] = [j_rop(o) for o in c["ops"]]
         c["header"] = jtext(c["header"])
@@ -963,6 +1127,10 @@ def to_json(case):
 
 def from_json(c):
     c = dict(c)
+    if c["kind"] == "app":
+        c["pre"] = [unj_xop(o) for o in c["pre"]]
+        c["calls"] = [(x[0],) if x[0] != "op" else ("op", unj_xop(x[1])) for x in c["calls"]]
+        return c
     if c["kind"] == "request":
         c["ops"] = [unj_rop(o) for o in c["ops"]]
         c["header"] = untext(c["header"])
@@ -1010,13 +1178,19 @@ def shrink(case, key):
     while progress:
         progress = False
         cands = []
-        ops = best["ops"]
+        if best["kind"] == "app":
+            for fld in ("pre", "calls"):
+                for i in range(len(best[fld])):
+                    c = dict(best)
+                    c[fld] = best[fld][:i] + best[fld][i + 1:]
+                    cands.append(c)
+        ops = best.get("ops", [])
         for i in range(len(ops)):
             c = dict(best)
             c["ops"] = ops[:i] + ops[i + 1:]
             if c["ops"]:
                 cands.append(c)
-        if best["kind"] == "response":
+        if best["kind"] in ("response", "app"):
             for w in (0, 1):
                 for i in range(len(best["init"][w])):
                     c = dict(best)
@@ -1090,8 +1264,9 @@ def run(ctx):
     cases = []
     for i in range(n):
         c = gen_request_case(rng, maxlen)
-        out = run_request_impl(c["header"], c["ops"])
-        lit = cpair("None" if c["header"] is None else "(Some %s)" % cstr(c["header"]), clist(c_rop(o) for o in c["ops"]))
+        out = run_request_impl(c["header"], c["ops"], c["held"])
+        lit = cpair("None" if c["header"] is None else "(Some %s)" % cstr(c["header"]),
+                    clist(c_rop(o) for o in c["ops"] if o[0] != "read"))
         cases.append((lit, out, c))
     bad = ctx.corr("request-jar", IMPORTS, "(fun c => run_request_u (fst c) (snd c))",
                    [(l, o, to_json(c)) for l, o, c in cases], in_type="(option str * list rop)")
@@ -1117,6 +1292,22 @@ def run(ctx):
             ctx.broken.append("correspondence response-cookies: model and implementation disagree on %s (implementation gives %r)"
                               % (json.dumps(to_json(cases[i][2])), cases[i][1]))
 
+    cases = []
+    for i in range(n):
+        c = gen_app_case(rng)
+        out, dpre, dcalls, _ = run_app_impl(c)
+        lit = cpair(cpair(cpair(clist(cpair(cstr(k), cstr(v)) for k, v in c["init"][0]), clist(cpair(cstr(k), cstr(v)) for k, v in c["init"][1])),
+                          clist(c_xop(o, d) for o, d in zip(c["pre"], dpre))),
+                    cpair(clist(cpair(cstr(k), cstr(v)) for k, v in c["app_headers"]),
+                          clist(c_acall(x, d) for x, d in zip(c["calls"], dcalls))))
+        cases.append((lit, out, c))
+    bad = ctx.corr("merge-app", IMPORTS, "run_merge_app_u", [(l, o, to_json(c)) for l, o, c in cases],
+                   in_type="((list (str * str) * list (str * str)) * list xop * (list (str * str) * list acall))")
+    for i in bad[:8]:
+        if not report(ctx, cases[i][2], "corr"):
+            ctx.broken.append("correspondence merge-app: model and implementation disagree on %s (implementation gives %r)"
+                              % (json.dumps(to_json(cases[i][2])), cases[i][1]))
+
     # ------------------------------------------------------------------ oracle sweep on the public API
     run_oracle(ctx)
     ctx.extra["rule"] = (
@@ -1125,7 +1316,14 @@ def run(ctx):
         "(result/exception, HTTP_COOKIE text, dict(req.cookies); full header lists of two responses); distinct = distinct "
         "Coq input literals.  oracle: reference dict / reference list of Set-Cookie lines against the public API after "
         "every step, exhaustively for short op sequences over names {a, A, ab, b} x selected headers, and on random "
-        "longer histories; a case is non-trivial when at least one step changed the jar / the header list" % maxlen)
+        "longer histories; a case is non-trivial when at least one step changed the jar / the header list.  Statefulness: "
+        "half of the request histories go through ONE held RequestCookies view, read-only accesses (get/in/len/items/"
+        "keys/values/iter/[]) are interleaved and must change nothing; before every step a brand-new Request / brand-new "
+        "Responses over the same header text must answer the step exactly like the long-lived objects; the dict assigned to "
+        "request.cookies must come back unchanged; merge_cookies onto a plain WSGI application is exercised with a fresh "
+        "header list per call and with ONE reused list object, the wrapped application called several times and the bare "
+        "one in between and afterwards (answers = app headers + merged cookies once, the application's list unchanged); "
+        "450 cases are re-run in reversed and shuffled order within the process and must answer identically" % maxlen)
     ctx.extra["exhaustive"] = False
     ctx.extra["exhaustive_part"] = ("request: all op sequences of length <= %d over %d ops x %d headers; response: all op sequences "
                                "of length <= %d over %d ops" % (ctx.scale(2, 3), len(small_rops()), len(SMALL_HEADERS),
@@ -1235,12 +1433,62 @@ def run_oracle(ctx):
     for _ in range(m):
         report(ctx, gen_response_case(r3, 12, True, False), "random-response")
     ctx.oracle_count("random-response", m, m)
+    # merge_cookies onto a plain WSGI application: a fresh header list per call / ONE reused list object; the wrapped
+    # application called several times, the bare one afterwards
+    cnt = 0
+    base = {"max_age": None, "path": "/", "domain": None, "comment": None, "secure": False, "httponly": False, "samesite": None}
+    pres = [[], [("set", 0, dict(base, name="a", value="1", secure=True, httponly=True, samesite="none"), False),
+                 ("set", 0, dict(base, name="b", value="2"), False)],
+            [("set", 0, dict(base, name="a", value="1"), False), ("delete", 0, "a", "/", None)]]
+    for pre in pres:
+        for apph in APP_HEADERS:
+            for reuse in (False, True):
+                for calls in itertools.product([("w",), ("b",), ("op", ("set", 0, dict(base, name="c", value="3"), False))],
+                                               repeat=ctx.scale(3, 4)):
+                    cnt += 1
+                    report(ctx, {"kind": "app", "init": [[["Content-Type", "text/html"]], []], "pre": pre, "app_headers": apph,
+                                 "reuse": reuse, "calls": list(calls)}, "exhaustive-merge-app")
+    ctx.oracle_count("exhaustive-merge-app", cnt, cnt)
+    r4 = ctx.sub_rng("oracle-merge-app")
+    m = ctx.scale(1500, 20000)
+    for _ in range(m):
+        report(ctx, gen_app_case(r4, False), "random-merge-app")
+    ctx.oracle_count("random-merge-app", m, m)
+    # module-level state: the same cases in another order within this process must give the same answers
+    r5 = ctx.sub_rng("oracle-order")
+    k = ctx.scale(150, 1500)
+    rq = [gen_request_case(r5, 8) for _ in range(k)]
+    rp = [gen_response_case(r5, 8) for _ in range(k)]
+    ap = [gen_app_case(r5) for _ in range(k)]
+
+    def answers(order):
+        out = {}
+        for kind, i in order:
+            if kind == 0:
+                out[(kind, i)] = run_request_impl(rq[i]["header"], rq[i]["ops"], rq[i]["held"])
+            elif kind == 1:
+                out[(kind, i)] = run_response_impl(rp[i]["init"], rp[i]["ops"])[0]
+            else:
+                out[(kind, i)] = run_app_impl(ap[i])[0]
+        return out
+    order = [(kind, i) for i in range(k) for kind in (0, 1, 2)]
+    first = answers(order)
+    shuffled = list(order)
+    r5.shuffle(shuffled)
+    for name, o2 in (("reversed", list(reversed(order))), ("shuffled", shuffled)):
+        again = answers(o2)
+        for key_ in order:
+            if again[key_] != first[key_]:
+                case = (rq, rp, ap)[key_[0]][key_[1]]
+                ctx.fail("order-dependence", "the same case answers differently when the cases of this run are executed in %s "
+                         "order: %r then, %r now" % (name, first[key_], again[key_]), to_json(case), True, "order-independence")
+    ctx.oracle_count("order-independence", 3 * k * 3, 3 * k)
 
 
 def replay(ctx, path):
     data = json.load(open(path))
     case = data.get("case") or {}
-    if case.get("kind") not in ("request", "response"):
+    if case.get("kind") not in ("request", "response", "app"):
         print("replay: nothing executable in this file (broken obligation): %s" % data.get("what"))
         return 1
     warnings.simplefilter("ignore")
